@@ -96,6 +96,8 @@ pub struct MonState {
     /// `over_budget` is set (0 = unlimited).
     pub seq_limit: u64,
     pub over_budget: bool,
+    /// While set, the fault plan neither counts nor fires (the harness's own readbacks).
+    pub faults_paused: bool,
 }
 
 impl MonState {
@@ -111,6 +113,9 @@ impl MonState {
 
     fn check_fault(&mut self, kind: u8) -> Option<(ErrorKind, bool)> {
         // returns Some((err, fail_now)) ; fail_now=false => short grant this time
+        if self.faults_paused {
+            return None;
+        }
         for i in 0..self.faults.len() {
             let f = self.faults[i].clone();
             if let Some(pk) = self.fault_pending[i] {
@@ -194,6 +199,9 @@ impl Shared {
     pub fn disarm(&self) {
         self.arm(Vec::new());
     }
+    pub fn pause_faults(&self, on: bool) {
+        self.lock().faults_paused = on;
+    }
     pub fn hits(&self) -> Vec<FaultHit> {
         self.lock().hits.clone()
     }
@@ -232,8 +240,17 @@ impl MonFile {
             perturb: None,
             seq_limit: 0,
             over_budget: false,
+            faults_paused: false,
         })));
         (MonFile { st: st.clone(), pos: 0 }, st)
+    }
+}
+
+impl MonFile {
+    /// Another handle (own position, starting at 0) on the same shared state: used to
+    /// retry `open` after an injected failure consumed the first handle.
+    pub fn attach(shared: &Shared) -> MonFile {
+        MonFile { st: shared.clone(), pos: 0 }
     }
 }
 
